@@ -1009,6 +1009,7 @@ func (db *DB) reWriteData(pendingMergeEntries []*Entry) error {
 	}
 	db.ActiveFile = dataFile
 	db.MaxFileID++
+	db.ActiveFile.fileID = db.MaxFileID
 
 	for _, e := range pendingMergeEntries {
 		err := tx.put(string(e.Meta.bucket), e.Key, e.Value, e.Meta.TTL, e.Meta.Flag, e.Meta.timestamp, e.Meta.ds)
